@@ -35,6 +35,11 @@ def run(tier):
             raise vlib.Inconclusive("MC Safekeeper: %s violated in the model\n%s" % (r.violated, r.out[-3000:]))
         run.coverage.update({"states": r.distinct, "transitions": r.generated, "mc_runs": [{"cfg": "MC_Safekeeper_quick.cfg", **r.summary()}]})
         vlib.log("[mc] Safekeeper: %d distinct, %d generated, %.1fs" % (r.distinct, r.generated, r.wall))
+        # sanity: without the check of an early end of file the model must admit a silently short result (a file
+        # truncated on a block boundary read through a pool that reports EOF together with its last bytes)
+        r0 = vlib.run_tlc("Safekeeper", "MC_Safekeeper_noeofcheck.cfg", timeout=600, heap="16g")
+        if r0.error or r0.violated != "NeverSilentlyWrong":
+            raise vlib.Inconclusive("MC_Safekeeper_noeofcheck should violate NeverSilentlyWrong, got %s %s" % (r0.violated, r0.error))
 
         stride = 4 if tier == "quick" else 1
         nsh = 12
